@@ -6,7 +6,7 @@ From Coq Require Export Init.Byte Strings.Byte.
 Export ListNotations.
 Ltac Zify.zify_post_hook ::= Z.div_mod_to_equations.
 
-Definition bytes := list byte.
+Notation bytes := (list byte) (only parsing).
 
 (* Outcome of a modelled Go function.
    Err       : the function returned a non-nil error
